@@ -122,6 +122,47 @@ fn probes_for(ws: &ModelWs, r: &mut Rng, n: usize) -> Vec<(Q, u32, u32)> {
     out
 }
 
+/// A long session on a file whose analysis takes long enough for a change to arrive in the middle of it: 250-400
+/// functions each calling the next; every version puts one more declaration in front (all offsets and the
+/// module's declarations change, so everything is inferred again). Readers are inside inference when they are
+/// cancelled, round after round, on the same threads.
+fn long_session_workspaces(r: &mut Rng, k: usize) -> (Vec<ModelWs>, Vec<&'static str>) {
+    let n = r.range(250, 400);
+    // the LAST function of the chain changes with every version - its number, and the type of its second
+    // component every other time - so every function above it has to be inferred again (not merely re-validated)
+    let chain = |v: usize| -> String {
+        let mut body = String::new();
+        for i in 0..n {
+            if i + 1 < n {
+                body.push_str(&format!("pub fn f{i}(x) {{ let y = f{}(x) #(y.0 + 1, y.1) }}\n", i + 1));
+            } else {
+                body.push_str(&format!("pub fn f{i}(x) {{ #(x * {}, {}) }}\n", v + 2, if v % 2 == 0 { "\"s\"" } else { "1.5" }));
+            }
+        }
+        body
+    };
+    let pkgs = vec![Pkg { root: "/ws/root".into(), name: "root".into(), is_local: true, deps: vec![] }];
+    let mut versions = Vec::new();
+    let mut kinds = vec!["initial"];
+    for v in 0..=k {
+        let mut head = String::new();
+        for j in 0..v {
+            head.push_str(&format!("const c{j} = {j}\n"));
+        }
+        versions.push(ModelWs {
+            pkgs: pkgs.clone(),
+            files: vec![
+                FileEntry { id: 0, pkg: 0, path: "/ws/root/gleam.toml".into(), text: "name = \"root\"\n".into() },
+                FileEntry { id: 1, pkg: 0, path: "/ws/root/src/chain.gleam".into(), text: format!("{head}{}", chain(v)) },
+            ],
+        });
+        if v > 0 {
+            kinds.push("declaration-prepended-to-a-call-chain");
+        }
+    }
+    (versions, kinds)
+}
+
 fn version_workspaces(r: &mut Rng, k: usize) -> (Vec<ModelWs>, Vec<&'static str>) {
     let cfg = GenCfg { modules: r.range(2, 3), max_items: r.range(4, 9), max_depth: r.range(2, 3), holes: false, non_core: true, trivia: Trivia::Plain, non_ascii: false };
     let g = gen::generate(r, &cfg);
@@ -225,7 +266,9 @@ fn run_scenario(rep: &mut Report, case_seed: u64) {
         rep.count("long_sessions", 1);
     }
     let n_readers = r.range(1, 4);
-    let (versions, kinds) = version_workspaces(&mut r, k);
+    // half of the long sessions run on the call-chain file (cancellations land inside inference), half on an
+    // ordinary generated workspace
+    let (versions, kinds) = if long_session && r.chance(1, 2) { long_session_workspaces(&mut r, k) } else { version_workspaces(&mut r, k) };
     // probes are fixed per scenario and valid for every version (offsets may exceed a
     // shrunken file: then both sides answer the same way, that is part of the comparison)
     let probes = Arc::new(probes_for(&versions[0], &mut r, 24));
